@@ -208,3 +208,22 @@ Definition check_m (c : mcase) : N :=
                      | [] => 3
                      end
   end.
+
+(** match_nested against the model, leptos_router's answers on the inner route tree being the oracle *)
+Record m2case := mk_m2case {
+  m2_names : list str;
+  m2_first : option str;              (* first segment of the path, None if the path has no leading '/' *)
+  m2_ol : list (option mres);         (* oracle: inner tree on the rest of the path, per locale *)
+  m2_od : option mres;                (* oracle: inner tree on the whole path, default locale *)
+  m2_impl : option (option nat * str * mres) }.
+
+Definition mout_eqb (a b : option (option nat * str * mres)) : bool :=
+  match a, b with
+  | Some (l1, m1, r1), Some (l2, m2, r2) => opt_nat_eqb l1 l2 && str_eqb m1 m2 && mres_eqb r1 r2
+  | None, None => true
+  | _, _ => false
+  end.
+
+Definition check_m2 (c : m2case) : N :=
+  let agree := mout_eqb (match_nested_model (m2_names c) (m2_first c) (m2_ol c) (m2_od c)) (m2_impl c) in
+  if spec_match (m2_names c) (m2_first c) (m2_ol c) (m2_od c) (m2_impl c) then (if agree then 0 else 2) else 3.
